@@ -378,3 +378,57 @@ def _three_x(O):
     run_layout(O, Layout("three inputs, X and numbers", ["in", "in", "in"], [2, 0, 1]), 10, in_kinds=("Number", "X"))
 for _lay in LAYOUTS_THOROUGH:
     _register(_lay, 25, "thorough")
+
+
+def prev_recorded(O, rep):
+    """get_row once on a one-column row: afterwards the iterator remembers exactly that row (what check_changed_entries
+    compares the next row with), whether or not the row's IO later succeeds - the IO is not part of get_row."""
+    m = O.mir
+    F = m.fidx
+    eng = O.engine()
+    eng.iter_bound = 6
+    eng.max_visits = 32
+    eng.inline_cyclic = True
+    eng.auto_inline_max_blocks = 400
+    eng.auto_inline_depth = 12
+    eng.models["StmtIterator::next_with_context"] = serve_one_row
+    eng.models["StmtIterator::new"] = lambda ctx: ctx.ret(Node(fresh_root("stmtiter"), ty=ctx.dest_ty))
+    fn = make_harness_new(1)
+
+    def setup(eng_, st, fr):
+        me = eng_.deref(fr.locals[1])
+        sig = build.struct([Node("name0", ty="String"), Node("bits0", ty="usize"),
+                            build.enum_val(eng_, "SignalType", "Input", [build.sym_enum("def0", "value::InputValue")])], "Signal")
+        ii = [build.enum_val(eng_, "EntryIndex", "Entry", [build.usize(0), build.usize(0)])]
+        assign_node(eng_.field(me, F("TestCase", "signals")), build.vec_of(eng_, [sig], "Vec<Signal>"))
+        assign_node(eng_.field(me, F("TestCase", "input_indices")), build.vec_of(eng_, ii, "Vec<EntryIndex>"))
+        assign_node(eng_.field(me, F("TestCase", "expected_indices")), build.vec_of(eng_, [], "Vec<EntryIndex>"))
+        e = build.sym_enum("e0", "stmt::DataEntry")
+        t = eng_.tag_of(e, st)
+        st.pc.append(z3.Or([t == bv64(m.vidx("DataEntry", k)) for k in ("Number", "Z")]))
+        b = eng_.scalar(eng_.field(sig, F("Signal", "bits"), "usize"))
+        st.pc.append(z3.And(z3.UGE(b, bv64(1)), z3.ULE(b, bv64(64))))
+        row = build.struct([build.vec_of(eng_, [e], "Vec<stmt::DataEntry>"), build.usize(LINE), mk_bool(z3.BoolVal(True))],
+                           "stmt::DataEntries")
+        st.extra["row"] = row
+        st.extra["served"] = mk_bool(z3.BoolVal(False))
+    paths = O.explore(eng, fn, setup=setup)
+    tag0 = z3.BitVec("e0.tag", 64)
+    val0 = z3.BitVec("e0#Number.0", 64)
+    ok = [p for p in paths if p.outcome == "return"]
+    O.witness(ok, "get_row returns a row")
+    for p in paths:
+        eng.focus(p)
+        if p.outcome != "return":
+            rep.fail(O, p, "get_row: %s %s" % (p.outcome, p.detail))
+            continue
+        td = p.state.frames[0].locals[3]
+        prev = eng.field(td, F("DataRowIteratorTestData", "prev"))
+        some = eng.downcast(prev, "Some")
+        v = eng.field(some, 0)
+        sl = vec_slice(eng, v)
+        e0 = eng.elem(sl, bv64(0))
+        NUM = bv64(m.vidx("DataEntry", "Number"))
+        claim = z3.And(eng.tag_of(prev, None) == bv64(1), eng.length(sl) == bv64(1), eng.tag_of(e0, None) == tag0,
+                       z3.Implies(tag0 == NUM, eng.scalar(eng.field(eng.downcast(e0, "Number"), 0, "i64")) == val0))
+        rep.prove(O, p, claim, "after get_row the iterator remembers the row it has just produced")
